@@ -2,7 +2,7 @@
    driver: one input line = one case (features, surface declaration, operations), output =
    one line per operation. *)
 From NV Require Import Base.Util Base.Sexp Base.IntTy Base.FloatBits Base.Float Base.Expr
-     Macro.Surface Macro.Ast Macro.Parse Macro.Validate Macro.Messages Macro.Inventory
+     Macro.Surface Macro.Ast Macro.Parse Macro.Validate Macro.Messages Macro.Inventory Macro.GenTests
      Sem.Guard Sem.Value Sem.Eval Sem.Conv Sem.Bytes Sem.ArbInt Sem.ArbStr Sem.ArbFloat Sem.Order Spec.GuardSpec Spec.Reference Run.Lib Run.Decode.
 From NV.Unicode Require UnicodeData UStr.
 Local Open Scope string_scope.
@@ -71,6 +71,8 @@ Definition run_op (d : decl) (op : sexp) : string :=
       concat_with " ;; " (map pr_fn (gen_fns {| ft_std := true; ft_serde := true; ft_regex := true; ft_arbitrary := true;
                                                 ft_new_unchecked := true; ft_schemars := false |} d) ++
                           map (fun u => String.append "use|" (String.append (fst u) (String.append "|" (snd u)))) (gen_uses d))%list
+  | L [A "gen_tests"] =>
+      concat_with ";" (map (fun t : string * bool => String.append (fst t) (if snd t then "=ok" else "=FAILED")) (gen_tests lib d))
   | L [A "arb_range"] =>
       match arb_boundary d with
       | Some (lo, hi) => "range " ++ string_of_Z lo ++ " " ++ string_of_Z hi
